@@ -126,6 +126,11 @@ def module_states(name, tier, nseeds=None, with_short=True, with_synth=True):
             transitions += 1
             if x not in states:
                 states[x] = (1, 'synth:registry', '')
+        if name == 'stdnum.gs1_128':
+            for x in synth.gs1_strings():
+                transitions += 1
+                if x not in states:
+                    states[x] = (1, 'synth:gs1', '')
         for x in synth.run_numbers(name, m, sv):
             transitions += 1
             if x not in states:
